@@ -5,7 +5,9 @@
  *   - mprotect: addr must be page aligned (else EINVAL); len == 0 is a no-op;
  *     the range is widened to whole pages containing any byte of [addr, addr+len).
  *   - mlock/munlock: page-rounded at both ends; mlock fails (ENOMEM) from the
- *     g_mlock_fail_from-th call on (a symbolic fault schedule set by the harness).
+ *     g_mlock_fail_from-th call on (a symbolic fault schedule set by the harness);
+ *     Linux behaviour for inaccessible pages: mlock over a PROT_NONE page returns
+ *     ENOMEM but leaves the range marked locked.
  *   - free: records, for the block being released, whether any byte is non-zero,
  *     any page still locked, any page not read+write.
  * The page size is tiny (GHOST_PAGE, default 4) so that page-1 / page / page+1 /
@@ -90,7 +92,11 @@ int mlock(const void *addr, size_t len) {
   size_t off = __CPROVER_POINTER_OFFSET(addr);
   if (off + len > a->size) { g_bad_call = 1; g_errno = 12; return -1; }
   size_t first = off / GHOST_PAGE, last = (off + len - 1) / GHOST_PAGE;
-  for (size_t p = first; p <= last && p < MAXP; p++) a->locked[p] = 1;
+  /* Linux: VM_LOCKED is applied to the range first, then the pages are faulted in; faulting an inaccessible (PROT_NONE)
+   * page fails and mlock returns ENOMEM - with the range still marked locked (observed natively: VmLck stays raised). */
+  int inaccessible = 0;
+  for (size_t p = first; p <= last && p < MAXP; p++) { a->locked[p] = 1; if (a->prot[p] == PROT_NONE_) inaccessible = 1; }
+  if (inaccessible) { g_errno = 12; return -1; }
   return 0;
 }
 
